@@ -17,7 +17,8 @@
 (* reader/writer.                                                                        *)
 EXTENDS Integers, Sequences, FiniteSets, TLC, Json
 
-CONSTANTS MaxPages,   \* 1..2
+CONSTANTS InEncs,     \* subset of {stm-str : stm, str \in {"V2", "AESV2", "Identity"}}
+          MaxPages,   \* 1..2
           Extras,     \* subset of ExtraKinds
           Encs,       \* subset of {"none", "aes256", "aes128", "rc4"}
           Emit
@@ -28,11 +29,11 @@ VARIABLES pc, sh, phase
 vars == <<pc, sh, phase>>
 
 Dims == <<"np", "tree", "rootrot", "midrot", "midmedia", "pagerot", "pagemedia", "res",
-          "filter", "nstreams", "sharedcontent", "lenind", "free", "inobjstm", "extra", "xsos", "eol", "enc", "mode">>
+          "filter", "nstreams", "sharedcontent", "lenind", "free", "inencw", "inenc", "inobjstm", "extra", "xsos", "eol", "enc", "mode", "rewrite">>
 
 Unset == [np |-> 0, tree |-> "", rootrot |-> -1, midrot |-> -1, midmedia |-> FALSE, pagerot |-> <<>>, pagemedia |-> <<>>,
-          res |-> "", filter |-> "", nstreams |-> 0, sharedcontent |-> FALSE, lenind |-> FALSE, free |-> FALSE, inobjstm |-> FALSE, extra |-> "",
-          xsos |-> "", eol |-> "", enc |-> "", mode |-> ""]
+          res |-> "", filter |-> "", nstreams |-> 0, sharedcontent |-> FALSE, lenind |-> FALSE, free |-> FALSE, inencw |-> 0, inenc |-> "", inobjstm |-> FALSE, extra |-> "",
+          xsos |-> "", eol |-> "", enc |-> "", mode |-> "", rewrite |-> ""]
 
 (* the values dimension d may take given the choices made so far *)
 Dom(d, s) ==
@@ -51,11 +52,16 @@ Dom(d, s) ==
     [] d = "sharedcontent" -> IF s.np > 1 THEN BOOLEAN ELSE {FALSE}
     [] d = "lenind"        -> BOOLEAN
     [] d = "free"          -> BOOLEAN
-    [] d = "inobjstm"      -> BOOLEAN                     \* the input keeps its non-stream objects in an object stream
+    [] d = "inencw"        -> 1..3                        \* one in three inputs is encrypted
+    [] d = "inenc"         -> IF s.inencw = 1 THEN InEncs ELSE {"none"}      \* "none", or "<StmF>-<StrF>": the input is already encrypted (standard handler V4)
+                                          \* with these crypt filters for streams and strings; it is written still encrypted
+    [] d = "inobjstm"      -> IF s.inenc = "none" THEN BOOLEAN ELSE {FALSE} \*                     \* the input keeps its non-stream objects in an object stream
     [] d = "extra"         -> Extras
     [] d = "xsos"          -> {"00", "10", "11"}          \* WriteXRefStream, WriteObjectStream
     [] d = "eol"           -> {"LF", "CR", "CRLF"}
-    [] d = "enc"           -> Encs
+    [] d = "enc"           -> IF s.inenc = "none" THEN Encs ELSE {"none"}
+    [] d = "rewrite"       -> {"none", "none", "00", "10", "11"}  \* a second write under this xref/object stream configuration:
+                                          \* of the SAME context after ResetWriteContext (plain), of the first output (api)
     [] d = "mode"          -> IF s.enc = "none" THEN {"plain", "api"} ELSE {"api"}   \* plain: read/validate/write; api: OptimizeFile / EncryptFile
 
 Init == pc = 1 /\ sh = Unset /\ phase = "build"
@@ -70,8 +76,11 @@ Built == /\ phase = "build" /\ pc > Len(Dims)
 (* the step under test: write with the chosen configuration, read the result *)
 WriteRead == /\ phase = "orig"
              /\ phase' = "written" /\ UNCHANGED <<pc, sh>>
+(* writing the same document once more under another writer configuration, reading that *)
+WriteReadAgain == /\ phase = "written" /\ sh.rewrite # "none"
+                  /\ phase' = "written2" /\ UNCHANGED <<pc, sh>>
 
-Next == Choose \/ Built \/ WriteRead
+Next == Choose \/ Built \/ WriteRead \/ WriteReadAgain
 Spec == Init /\ [][Next]_vars
 
 -----------------------------------------------------------------------------
@@ -86,12 +95,14 @@ Marker(s, p) == IF s.sharedcontent THEN 1 ELSE p          \* which content the p
 Abs(s) == [pages |-> [p \in 1..s.np |-> [rot |-> EffRot(s, p), media |-> EffMedia(s, p), marker |-> Marker(s, p)]],
            extra |-> s.extra]
 
-WriteReadStutters == [][phase = "orig" /\ phase' = "written" => Abs(sh') = Abs(sh)]_vars
+WriteStep == (phase = "orig" /\ phase' = "written") \/ (phase = "written" /\ phase' = "written2")
+WriteReadStutters == [][WriteStep => Abs(sh') = Abs(sh)]_vars
 
 TypeOK == /\ pc \in 1..(Len(Dims) + 1)
-          /\ phase \in {"build", "orig", "written"}
+          /\ phase \in {"build", "orig", "written", "written2"}
           /\ (phase # "build" => \A p \in 1..sh.np : EffRot(sh, p) \in {0, 90, 180, 270} /\ EffMedia(sh, p) \in {"A", "B", "C"})
 
 Case == [shape |-> sh, expect |-> Abs(sh)]
-EmitCase == (Emit /\ phase = "written") => PrintT(<<"CASE", ToJson(Case)>>)
+Final == (phase = "written" /\ sh.rewrite = "none") \/ phase = "written2"
+EmitCase == (Emit /\ Final) => PrintT(<<"CASE", ToJson(Case)>>)
 =============================================================================
